@@ -94,7 +94,7 @@ SAFETY = ("INIT MCInit\nNEXT MCNext\nVIEW MCView\nCONSTRAINT Bounded\n"
           "INVARIANTS TypeOK AtMostOnce NoPanic NoUnderflow EmptyDomain MutexSane CallbackAfterGracePeriod BarrierAfterGracePeriod\n"
           "CHECK_DEADLOCK FALSE\n")
 TOUR = SAFETY + "ACTION_CONSTRAINT Emit\n"
-WITNESS = ("INIT MCInit\nNEXT MCNext\nVIEW MCView\nCONSTRAINT Bounded\nINVARIANTS NoCasRetryWitness\nCHECK_DEADLOCK FALSE\n")
+WITNESS = ("INIT MCInit\nNEXT MCNext\nVIEW MCView\nCONSTRAINT Bounded\nINVARIANTS %s\nCHECK_DEADLOCK FALSE\n")
 LIVE = ("SPECIFICATION FairSpec\nPROPERTIES EventuallyFired BarrierReturns\nCHECK_DEADLOCK FALSE\n")
 
 
@@ -165,13 +165,16 @@ def witness_stage(ctx, binary):
     (2 agents, 3 nodes, atomic-access granularity); the history of each shortest counterexample is a schedule that puts
     the real code into that branch (three registrations around a period change, the other agent's CAS between this
     agent's load and its CAS).  Each is replayed with the fair drain after it: every registered callback must run."""
-    c = cfg(ctx, "qs_witness.cfg", 2, 3, 1, 4, 8, "access", WITNESS, barrier="FALSE")
-    r = run_model(ctx, ctx.work, c, "cas-retry witness", workers=16, xmx="24g", timeout=1500)
-    ws = list(tlc.printed_tuples(r, "W"))
     uniq = []
-    for w in ws:
-        if w not in uniq:
-            uniq.append(w)
+    # await_barrier's CAS loop (3 nodes, no barrier) and quiescent_barrier's own CAS loop (2 nodes + the barrier)
+    for nm, inv, nn, barr in (("qs_witness.cfg", "NoCasRetryWitness", 3, "FALSE"), ("qs_witness_b.cfg", "NoBarrierCasRetryWitness", 2, "TRUE")):
+        c = cfg(ctx, nm, 2, nn, 1, 4, 8, "access", WITNESS % inv, barrier=barr)
+        r = run_model(ctx, ctx.work, c, "cas-retry witness " + inv, workers=16, xmx="24g", timeout=1500)
+        found = 0
+        for w in tlc.printed_tuples(r, "W"):
+            if w not in uniq:
+                uniq.append(w); found += 1
+        ctx.cov.setdefault("cas_retry_witnesses_by_branch", {})[inv] = found
     ctx.cov["cas_retry_witness_schedules"] = len(uniq)
     if not uniq:
         ctx.notes.append("no CAS-retry witness found within the bounds (2 agents, 3 nodes, 4 calls each): branch not driven")
